@@ -50,6 +50,11 @@ def main():
         print(json.dumps(meta, indent=1))
         return 2
     confirm = {}
+    if skip:
+        try:
+            confirm = json.load(open(os.path.join(VERIF, "seeded", name, "meta.json"))).get("confirmation", {})
+        except Exception:
+            confirm = {}
     if not skip:
         rc, out = sh("cargo test --offline --no-fail-fast 2>&1", cwd=scratch)
         res, failed = test_summary(out)
